@@ -43,10 +43,12 @@ MODEL = "A = Alpha()\nB = Shared()"
 def gen_history(rng):
     steps = []
     for _ in range(rng.choice([1, 1, 2, 3, 4, 6])):
-        k = rng.choice(["program", "program", "program", "import", "define", "run", "program-wd"])
+        k = rng.choice(["program", "program", "program", "import", "define", "run", "program-wd", "cli"])
         if k == "program":
             libs = rng.choice(PROBES + [[rng.choice(USER)], [rng.choice(USER), rng.choice(USER)]])
             steps.append(["program", list(dict.fromkeys(libs))])
+        elif k == "cli":
+            steps.append(["cli", rng.choice(["eems-csv", "eems-netcdf"]), rng.choice([["usub"], ["ulib"], ["other", "ulibx"], [], ["ulib", "ulib_extra"]])])
         elif k == "program-wd":
             steps.append(["program-wd", rng.choice([["wdlib"], ["other", "wdlib"], ["ulib"], ["wdlib", "upkg"]])])
         elif k == "import":
@@ -72,6 +74,11 @@ def cases(ctx):
         if ctx.mine(k0):
             yield {"probe": probe, "history": [["program", probe]]}
             yield {"probe": probe, "history": [["program", probe], ["define", "Zeta", "__main__"], ["program", probe]]}
+        k0 += 1
+    for probe in (CSV, ["ulib"]):
+        if ctx.mine(k0):
+            yield {"probe": probe, "history": [["cli", "eems-csv", ["usub"]]]}
+            yield {"probe": probe, "history": [["cli", "eems-csv", ["ulib"]], ["cli", "eems-netcdf", ["other"]]]}
         k0 += 1
     for probe in (["wdlib"], ["other", "wdlib"]):
         if ctx.mine(k0):
@@ -154,7 +161,7 @@ def run_case(ctx, case):
         return
     ctx.count("histories_run")
     ctx.count("library_snapshots_compared")
-    touched = sorted(set(l for s in history if s[0] in ("program", "run", "program-wd") for l in s[1]) | set(s[1] for s in history if s[0] == "import"))
+    touched = sorted(set(l for s in history if s[0] in ("program", "run", "program-wd") for l in s[1]) | set(l for s in history if s[0] == "cli" for l in s[2]) | set(s[1] for s in history if s[0] == "import"))
     ctx.feature((tuple(probe), tuple(sorted(s[0] for s in history)), tuple(touched)[:4]))
     a = {k: v for k, v in ref.items() if k != "steps"}
     b = {k: v for k, v in got.items() if k != "steps"}
@@ -167,7 +174,7 @@ def run_case(ctx, case):
             added = sorted(set(lb) - set(la))
             removed = sorted(set(la) - set(lb))
             changed = sorted(n for n in la if n in lb and la[n] != lb[n])
-            dev = "extra-commands" if added else "missing-commands" if removed else "resolves-differently" if changed else "duplicate-list-differs"
+            dev = "extra-commands" if added else "missing-commands" if removed else "resolves-differently" if changed else "command-line-tool-behaves-differently" if a.get("cli") != b.get("cli") else "duplicate-list-differs"
             extra = {"added": added[:5], "added_from": sorted(set(lb[n]["module"] for n in added))[:3], "removed": removed[:5], "changed": changed[:5]}
         prefix = any(any(t != p and (t.startswith(p) or p.startswith(t)) for p in probe) for t in touched + [s[2] for s in history if s[0] == "define"])
         ctx.fail("history-dependent:%s:%s" % (dev, "prefix-related-name" if prefix else "unrelated-name"), dict(extra, probe=probe, history=history))
